@@ -433,7 +433,7 @@ Hclose(int32 file_id)
     HEclear();
 
     /* convert file id to file rec and check for validity */
-    file_rec = HAatom_object(file_id);
+    file_rec = HIfile_rec(file_id);
     if (BADFREC(file_rec))
         HGOTO_ERROR(DFE_ARGS, FAIL);
 
@@ -546,7 +546,7 @@ Hinquire(int32 access_id, int32 *pfile_id, uint16 *ptag, uint16 *pref, int32 *pl
 
     /* clear error stack and check validity of access id */
     HEclear();
-    access_rec = HAatom_object(access_id);
+    access_rec = HIaccess_rec(access_id);
     if (access_rec == (accrec_t *)NULL)
         HGOTO_ERROR(DFE_ARGS, FAIL);
 
@@ -595,7 +595,7 @@ Hfidinquire(int32 file_id, char **fname, int *faccess, int *attach)
 
     HEclear();
 
-    file_rec = HAatom_object(file_id);
+    file_rec = HIfile_rec(file_id);
     if (BADFREC(file_rec))
         HGOTO_ERROR(DFE_BADACC, FAIL);
 
@@ -680,7 +680,7 @@ Hnextread(int32 access_id, uint16 tag, uint16 ref, int origin)
 
     /* clear error stack and check validity of the access id */
     HEclear();
-    access_rec = HAatom_object(access_id);
+    access_rec = HIaccess_rec(access_id);
     if (access_rec == (accrec_t *)NULL || !(access_rec->access & DFACC_READ) ||
         (origin != DF_START && origin != DF_CURRENT)) /* DF_END is NOT supported yet !!!! */
         HGOTO_ERROR(DFE_ARGS, FAIL);
@@ -856,7 +856,7 @@ Hstartaccess(int32 file_id, uint16 tag, uint16 ref, uint32 flags)
     /* clear error stack and check validity of file id */
     HEclear();
 
-    file_rec = HAatom_object(file_id);
+    file_rec = HIfile_rec(file_id);
     if (BADFREC(file_rec))
         HGOTO_ERROR(DFE_ARGS, FAIL);
 
@@ -996,7 +996,7 @@ Hsetlength(int32 aid, int32 length)
     /* clear error stack and check validity of file id */
     HEclear();
 
-    if ((access_rec = HAatom_object(aid)) == NULL) /* get the access_rec pointer */
+    if ((access_rec = HIaccess_rec(aid)) == NULL) /* get the access_rec pointer */
         HGOTO_ERROR(DFE_ARGS, FAIL);
 
     /* Check whether we are allowed to change the length */
@@ -1045,7 +1045,7 @@ Happendable(int32 aid)
 
     /* clear error stack and check validity of file id */
     HEclear();
-    if ((access_rec = HAatom_object(aid)) == NULL) /* get the access_rec pointer */
+    if ((access_rec = HIaccess_rec(aid)) == NULL) /* get the access_rec pointer */
         HGOTO_ERROR(DFE_ARGS, FAIL);
 
     /* just indicate that the data should be appendable, and only convert */
@@ -1082,7 +1082,7 @@ HPisappendable(int32 aid)
 
     /* clear error stack and check validity of file id */
     HEclear();
-    if ((access_rec = HAatom_object(aid)) == NULL) /* get the access_rec pointer */
+    if ((access_rec = HIaccess_rec(aid)) == NULL) /* get the access_rec pointer */
         HGOTO_ERROR(DFE_ARGS, FAIL);
 
     file_rec = HAatom_object(access_rec->file_id);
@@ -1137,7 +1137,7 @@ Hseek(int32 access_id, int32 offset, int origin)
     /* clear error stack and check validity of this access id */
     HEclear();
 
-    access_rec = HAatom_object(access_id);
+    access_rec = HIaccess_rec(access_id);
     if (access_rec == (accrec_t *)NULL || (origin != DF_START && origin != DF_CURRENT && origin != DF_END))
         HGOTO_ERROR(DFE_ARGS, FAIL);
 
@@ -1220,7 +1220,7 @@ Htell(int32 access_id)
     /* clear error stack and check validity of this access id */
     HEclear();
 
-    access_rec = HAatom_object(access_id);
+    access_rec = HIaccess_rec(access_id);
     if (access_rec == (accrec_t *)NULL)
         HGOTO_ERROR(DFE_ARGS, FAIL);
 
@@ -1259,7 +1259,7 @@ Hread(int32 access_id, int32 length, void *data)
 
     /* clear error stack and check validity of access id */
     HEclear();
-    access_rec = HAatom_object(access_id);
+    access_rec = HIaccess_rec(access_id);
     if (access_rec == (accrec_t *)NULL || data == NULL)
         HGOTO_ERROR(DFE_ARGS, FAIL);
 
@@ -1343,7 +1343,7 @@ Hwrite(int32 access_id, int32 length, const void *data)
 
     /* clear error stack and check validity of access id */
     HEclear();
-    access_rec = HAatom_object(access_id);
+    access_rec = HIaccess_rec(access_id);
     if (access_rec == (accrec_t *)NULL || !(access_rec->access & DFACC_WRITE) || data == NULL)
         HGOTO_ERROR(DFE_ARGS, FAIL);
 
@@ -1506,7 +1506,7 @@ Hendaccess(int32 access_id)
 
     /* clear error stack and check validity of access id */
     HEclear();
-    if ((access_rec = HAremove_atom(access_id)) == NULL)
+    if (HAatom_group(access_id) != AIDGROUP || (access_rec = HAremove_atom(access_id)) == NULL)
         HGOTO_ERROR(DFE_ARGS, FAIL);
 
     /* if special elt, call special function */
@@ -1796,7 +1796,7 @@ Htrunc(int32 aid, int32 trunc_len)
 
     /* clear error stack and check validity of access id */
     HEclear();
-    access_rec = HAatom_object(aid);
+    access_rec = HIaccess_rec(aid);
     if (access_rec == (accrec_t *)NULL || !(access_rec->access & DFACC_WRITE))
         HGOTO_ERROR(DFE_ARGS, FAIL);
 
@@ -1896,7 +1896,7 @@ Hsync(int32 file_id)
     int        ret_value = SUCCEED;
 
     /* check validity of file record and get dd ptr */
-    file_rec = HAatom_object(file_id);
+    file_rec = HIfile_rec(file_id);
     if (BADFREC(file_rec))
         HGOTO_ERROR(DFE_INTERNAL, FAIL);
 
@@ -1934,7 +1934,7 @@ Hcache(int32 file_id, int cache_on)
     } /* end if */
     else {
         /* check validity of file record and get dd ptr */
-        file_rec = HAatom_object(file_id);
+        file_rec = HIfile_rec(file_id);
         if (BADFREC(file_rec))
             HGOTO_ERROR(DFE_INTERNAL, FAIL);
 
@@ -1969,7 +1969,7 @@ HDvalidfid(int32 file_id)
     int        ret_value = TRUE;
 
     /* convert file id to file rec and check for validity */
-    file_rec = HAatom_object(file_id);
+    file_rec = HIfile_rec(file_id);
     if (BADFREC(file_rec))
         ret_value = FALSE;
 
@@ -2011,7 +2011,7 @@ Hsetaccesstype(int32 access_id, unsigned accesstype)
     /* clear error stack and check validity of this access id */
     HEclear();
 
-    access_rec = HAatom_object(access_id);
+    access_rec = HIaccess_rec(access_id);
     if (access_rec == (accrec_t *)NULL)
         HGOTO_ERROR(DFE_ARGS, FAIL);
     if (accesstype != DFACC_DEFAULT && accesstype != DFACC_SERIAL && accesstype != DFACC_PARALLEL)
@@ -2471,7 +2471,7 @@ Hgetfileversion(int32 file_id, uint32 *majorv, uint32 *minorv, uint32 *release, 
 
     HEclear();
 
-    file_rec = HAatom_object(file_id);
+    file_rec = HIfile_rec(file_id);
     if (BADFREC(file_rec))
         HGOTO_ERROR(DFE_ARGS, FAIL);
 
@@ -2512,7 +2512,7 @@ HIcheckfileversion(int32 file_id)
 
     HEclear();
 
-    file_rec = HAatom_object(file_id);
+    file_rec = HIfile_rec(file_id);
     if (BADFREC(file_rec))
         HGOTO_ERROR(DFE_ARGS, FAIL);
 
@@ -2828,7 +2828,7 @@ HIupdate_version(int32 file_id)
     HEclear();
 
     /* Check args */
-    file_rec = HAatom_object(file_id);
+    file_rec = HIfile_rec(file_id);
     if (BADFREC(file_rec))
         HGOTO_ERROR(DFE_ARGS, FAIL);
 
@@ -2885,7 +2885,7 @@ HIread_version(int32 file_id)
 
     HEclear();
 
-    file_rec = HAatom_object(file_id);
+    file_rec = HIfile_rec(file_id);
     if (BADFREC(file_rec))
         HGOTO_ERROR(DFE_ARGS, FAIL);
 
@@ -3042,7 +3042,7 @@ HDget_special_info(int32 access_id, sp_info_block_t *info_block)
 
     /* clear error stack and check validity of access id */
     HEclear();
-    access_rec = HAatom_object(access_id);
+    access_rec = HIaccess_rec(access_id);
     if (access_rec == (accrec_t *)NULL || info_block == NULL)
         HGOTO_ERROR(DFE_ARGS, FAIL);
 
@@ -3082,7 +3082,7 @@ HDset_special_info(int32 access_id, sp_info_block_t *info_block)
 
     /* clear error stack and check validity of access id */
     HEclear();
-    access_rec = HAatom_object(access_id);
+    access_rec = HIaccess_rec(access_id);
     if (access_rec == (accrec_t *)NULL || info_block == NULL)
         HGOTO_ERROR(DFE_ARGS, FAIL);
 
@@ -3384,7 +3384,7 @@ HDcheck_empty(int32 file_id, uint16 tag, uint16 ref, int *emptySDS /* TRUE if da
     HEclear();
 
     /* convert file id to file rec and check for validity */
-    file_rec = HAatom_object(file_id);
+    file_rec = HIfile_rec(file_id);
     if (BADFREC(file_rec))
         HGOTO_ERROR(DFE_ARGS, FAIL);
 
